@@ -48,56 +48,116 @@ fn file_len(s: &Session<DbBytes>, ext: &str) -> u64 {
     std::fs::metadata(s.dir.join(format!("m.{ext}"))).map(|m| m.len()).unwrap_or(0)
 }
 
-/// build a start image through the API. kind: 0 empty, 1 val EOF just below `boundary`, 2 key EOF just below `boundary`
-fn seed_image(a: &Args, n: u64, b: u64, kind: u32, boundary: u64, ctx: &mut Ctx) -> Result<(Image, Model), String> {
+/// largest value length whose slot is exactly `slot`
+fn max_val_len_for_slot(slot: u64) -> Option<u64> {
+    let mut len = slot.saturating_sub(6);
+    while len > 0 && value_slot(len) > slot {
+        len -= 1;
+    }
+    if value_slot(len) == slot {
+        Some(len)
+    } else {
+        None
+    }
+}
+
+/// slot size for the next filler so that the rest stays fillable (0 or >= 16)
+fn next_fill(r: u64) -> u64 {
+    let ok = |c: u64| c <= r && (r - c == 0 || r - c >= 16);
+    if r >= 1152 + 16 {
+        let mut c = (r.min(50_048) / 128) * 128;
+        while c > 1152 && !ok(c) {
+            c -= 128;
+        }
+        return c;
+    }
+    for &c in crate::decoder::CLASSES.iter().rev() {
+        if c != 1024 && ok(c as u64) {
+            return c as u64;
+        }
+    }
+    0
+}
+
+/// build a start image through the API: the end of the value file and/or of the key file is brought to
+/// exactly 16 bytes below a width boundary of the offset encodings, with free slots of several classes below it
+fn seed_image(a: &Args, n: u64, b: u64, val_boundary: u64, key_boundary: u64, ctx: &mut Ctx) -> Result<(Image, Model), String> {
     let dir = a.scratch.join("c08seed");
     let _ = std::fs::remove_dir_all(&dir);
     let cfg = Cfg { buckets: Buckets::Size(n), key: Buf::PerMille(1000), val: Buf::Auto, htx: Buf::PerMille(1000) };
     let mut s = Session::<DbBytes>::create(&dir, "m", &cfg)?;
     let mut ctr = 1000u64;
-    if kind != 0 {
-        // temporaries that will leave low free slots of several classes in both files
-        let temps: Vec<(Vec<u8>, usize)> = [14usize, 22, 30, 46, 22, 62]
+    if val_boundary != 0 || key_boundary != 0 {
+        // temporaries: deleted at the end, they leave low free slots of several classes in both files
+        // (one free slot per small class only, so that allocations reach the end of the file after a few calls)
+        let temps: Vec<(Vec<u8>, usize)> = [14usize, 22, 30, 46, 62]
             .iter()
             .enumerate()
-            .map(|(i, &vl)| (key_in_bucket(n, b, 8 + 4 * i, b'T', &mut ctr), vl))
+            .map(|(i, &vl)| (key_in_bucket(n, b, [8usize, 12, 20, 28, 44][i], b'T', &mut ctr), vl))
             .collect();
         for (k, vl) in temps.iter() {
             put(&mut s, k, &crate::util::gen_bytes(*vl, 1, 0))?;
         }
-        flush(&mut s)?;
-        let target = boundary - 48;
-        if kind == 1 {
-            let e0 = file_len(&s, "val");
-            let want = target - e0;
-            let mut len = want.saturating_sub(300);
-            while value_slot(len) < want {
-                len += 1;
+        // placeholders whose 16-byte value slots will take the values of the key fillers (so that filling
+        // the key file does not move the end of the value file any more)
+        // (40-byte keys: their freed 48-byte key slots do not serve the 16/24-byte records of the alphabet)
+        let zs: Vec<Vec<u8>> = (0..40).map(|_| key_in_bucket(n, b, 40, b'Z', &mut ctr)).collect();
+        if key_boundary != 0 {
+            for k in zs.iter() {
+                put(&mut s, k, &crate::util::gen_bytes(14, 3, 0))?;
             }
-            let fk = key_in_bucket(n, b, 12, b'F', &mut ctr);
-            put(&mut s, &fk, &crate::util::gen_bytes(len as usize, 2, 0))?;
+        }
+        if val_boundary != 0 {
+            let target = val_boundary - 16;
+            for _step in 0..60 {
+                flush(&mut s)?;
+                let e0 = file_len(&s, "val");
+                if e0 >= target {
+                    break;
+                }
+                let c = next_fill(target - e0);
+                let Some(len) = (if c == 0 { None } else { max_val_len_for_slot(c) }) else { break };
+                let fk = key_in_bucket(n, b, 7, b'V', &mut ctr);
+                put(&mut s, &fk, &crate::util::gen_bytes(len as usize, 2, 0))?;
+            }
             flush(&mut s)?;
             if file_len(&s, "val") != target {
-                ctx.count("seed.imprecise", 1);
+                ctx.count("seed.imprecise_val", 1);
             }
-        } else {
-            // long filler keys push the key file to the boundary (two of them: links between them get wide too)
-            let e0 = file_len(&s, "key");
-            let want = target - e0;
-            let half = (want / 2 / 128) * 128;
-            for (i, part) in [half, want - half].iter().enumerate() {
-                let mut len = part.saturating_sub(300);
-                // key slot = payload(enc(len)+len+wv+wn) rounded; search the length whose slot is `part`
-                let wn = 2;
-                while crate::ops::key_slot(len, 2, wn) < *part {
+        }
+        if key_boundary != 0 {
+            for k in zs.iter() {
+                del(&mut s, k)?;
+            }
+            let target = key_boundary - 16;
+            for _step in 0..38 {
+                flush(&mut s)?;
+                let e0 = file_len(&s, "key");
+                if e0 >= target {
+                    break;
+                }
+                let c = next_fill(target - e0);
+                if c == 0 {
+                    break;
+                }
+                // longest key whose record needs a slot of exactly c (offset fields at most 3 bytes each here)
+                let mut len = c.saturating_sub(12);
+                while crate::ops::key_slot(len + 1, 3, 3) <= c {
                     len += 1;
                 }
-                let fk = key_in_bucket(n, b, len as usize, b'G' + i as u8, &mut ctr);
-                put(&mut s, &fk, b"fv")?;
+                if crate::ops::key_slot(len, 3, 3) != c || len < 6 {
+                    // a small class that cannot be hit with both offsets 3 bytes wide: take the next smaller fit
+                    len = c.saturating_sub(8).max(6);
+                }
+                let fk = key_in_bucket(n, b, len as usize, b'G', &mut ctr);
+                put(&mut s, &fk, &crate::util::gen_bytes(14, 4, 0))?;
             }
             flush(&mut s)?;
             if file_len(&s, "key") != target {
-                ctx.count("seed.imprecise", 1);
+                ctx.count("seed.imprecise_key", 1);
+            }
+            if val_boundary != 0 && file_len(&s, "val") != val_boundary - 16 {
+                ctx.count("seed.imprecise_val", 1);
             }
         }
         for (k, _) in temps.iter() {
@@ -108,6 +168,8 @@ fn seed_image(a: &Args, n: u64, b: u64, kind: u32, boundary: u64, ctx: &mut Ctx)
     s.close();
     let img = Image::read(&dir, "m").map_err(|e| e.to_string())?;
     let _ = std::fs::remove_dir_all(&dir);
+    ctx.max("seed.val_file_len", img.val.len() as u64);
+    ctx.max("seed.key_file_len", img.key.len() as u64);
     Ok((img, model))
 }
 
@@ -130,24 +192,37 @@ fn chain_position(dec: &Decoded, key: &[u8]) -> &'static str {
 
 pub fn run(a: &Args) -> Ctx {
     let mut ctx = Ctx::new("C08", &["C08"], &a.replay_dir, &a.shard_name());
-    let cap = a.get_u64("states", 2500) as usize;
-    // shard -> (table, start image)
-    let variants: Vec<(u64, u32, u64)> = {
-        let mut v = vec![(1u64, 0u32, 0u64), (8, 0, 0), (1, 1, 16384), (8, 1, 16384), (1, 2, 16384), (8, 2, 16384)];
+    let mut cap = a.get_u64("states", 2500) as usize;
+    // shard -> (table, value-file boundary, key-file boundary). 16 KiB: width boundary of the slot-size
+    // estimate (enc(offset)); 128 KiB: width boundary of the stored field (enc(offset/8)); 2 MiB: next estimate boundary
+    let variants: Vec<(u64, u64, u64)> = {
+        let mut v = Vec::new();
+        let bs: &[u64] = &[0, 16384, 131072];
+        for &n in &[1u64, 8] {
+            for &vb in bs {
+                for &kb in bs {
+                    v.push((n, vb, kb));
+                }
+            }
+        }
         if a.thorough {
-            v.push((1, 1, 2 * 1024 * 1024));
-            v.push((8, 2, 2 * 1024 * 1024));
+            v.push((1, 2 * 1024 * 1024, 0));
+            v.push((8, 16384, 2 * 1024 * 1024));
+            v.push((1, 2 * 1024 * 1024, 131072));
         }
         v
     };
-    let (n, kind, boundary) = variants[a.shard % variants.len()];
+    let (n, val_boundary, key_boundary) = variants[a.shard % variants.len()];
     let salt = (a.shard / variants.len()) as u64 + a.seed * 31;
     let b = salt % n;
-    // alphabet: key lengths exactly on slot edges for the offset widths in play
-    let lens_all = [11usize, 10, 9, 19, 18, 27, 12];
-    let nk = 4 + (salt % 2) as usize;
+    // alphabet: key lengths exactly on slot edges for the offset widths in play. 10 and 18 fill a 16/24-byte
+    // slot exactly while both offset fields take 2 bytes, 9 while one of them takes 3, 11/19 only as chain tail:
+    // several exactly-full records in one chain are what makes a relocation cascade towards the bucket head
+    let alphabets: [&[usize]; 3] = [&[10, 10, 10, 11, 9], &[10, 18, 10, 18, 11], &[9, 10, 19, 18, 10]];
+    let lens_all = alphabets[(salt % 3) as usize];
+    let nk = 4 + ((salt / 3) % 2) as usize;
     let mut ctr = 7 * salt;
-    let keys: Vec<Vec<u8>> = (0..nk).map(|i| key_in_bucket(n, b, lens_all[(i + salt as usize) % lens_all.len()], b'k', &mut ctr)).collect();
+    let keys: Vec<Vec<u8>> = (0..nk).map(|i| key_in_bucket(n, b, lens_all[i], b'k', &mut ctr)).collect();
     let val_sets: [&[u32]; 3] = [&[14, 15, 300, 1100], &[0, 22, 23, 5000], &[14, 126, 127, 2000]];
     let vals: Vec<ValSpec> = val_sets[(salt % 3) as usize].iter().enumerate().map(|(i, &l)| ValSpec { len: l, seed: i as u32 + 1, kind: 0 }).collect();
     let mut transitions: Vec<Op> = Vec::new();
@@ -157,137 +232,201 @@ pub fn run(a: &Args) -> Ctx {
         }
         transitions.push(Op::Del(k));
     }
-    let (img0, model0) = match seed_image(a, n, b, kind, boundary, &mut ctx) {
+    let (img0, model0) = match seed_image(a, n, b, val_boundary, key_boundary, &mut ctx) {
         Ok(x) => x,
         Err(e) => {
             ctx.inconclusive.push(format!("cannot build the start image: {e}"));
             return ctx;
         }
     };
-    ctx.count(&format!("start.table{n}.kind{kind}.boundary{boundary}"), 1);
+    ctx.count(&format!("start.table{n}.val{val_boundary}.key{key_boundary}"), 1);
     let mut sample = J::obj();
     sample.set("table", J::u(n));
-    sample.set("start", J::s(match kind { 0 => "empty".to_string(), 1 => format!("val EOF just below {boundary}"), _ => format!("key EOF just below {boundary}") }));
+    sample.set("start", J::s(format!("value file ends just below {val_boundary}, key file ends just below {key_boundary} (0 = empty file)")));
     sample.set("keys", J::Arr(keys.iter().map(|k| J::s(crate::util::show_bytes(k))).collect()));
     sample.set("value_lengths", J::Arr(vals.iter().map(|v| J::u(v.len as u64)).collect()));
     sample.set("transitions_per_state", J::u(transitions.len() as u64));
     ctx.samples.push(sample);
 
+    // big start images cost more per transition: fewer states
+    cap = (cap as u64 * 60_000 / (img0.total_len().max(60_000))).max(400) as usize;
     let mut all_keys = keys.clone();
     all_keys.extend(model0.keys().cloned());
     let dir = a.scratch.join("c08");
     let mut seen: HashSet<u64> = HashSet::new();
     let mut queue: VecDeque<State> = VecDeque::new();
     seen.insert(img0.digest());
-    queue.push_back(State { img: img0, model: model0, depth: 0 });
-    let mon = Mon::default();
     let cfg = Cfg { buckets: Buckets::Size(n), key: Buf::PerMille(1000), val: Buf::Auto, htx: Buf::PerMille(1000) };
+    let env = Env { n, val_boundary, key_boundary, dir: dir.clone(), cfg, keys: keys.clone(), all_keys };
+    let start = State { img: img0.clone(), model: model0.clone(), depth: 0 };
+    queue.push_back(State { img: img0, model: model0, depth: 0 });
     let mut states = 0usize;
-    let mut closed = true;
+    let mut dropped = false;
+    let mut stopped = false;
     'bfs: while let Some(st) = queue.pop_front() {
         states += 1;
         ctx.count("states", 1);
         ctx.max("max_depth", st.depth as u64);
         let pre_dec = decoder::decode(&st.img, Some(DbBytes::SIG));
-        for (ti, op) in transitions.iter().enumerate() {
-            let _ = std::fs::remove_dir_all(&dir);
-            if let Err(e) = st.img.write(&dir, "m") {
-                ctx.inconclusive.push(format!("cannot restore image: {e}"));
-                break 'bfs;
-            }
-            let affected = match op {
-                Op::Put(k, _) | Op::Del(k) => &keys[*k],
-                _ => unreachable!(),
-            };
-            let pos = chain_position(&pre_dec, affected);
-            let opname = match op {
-                Op::Put(_, _) => if st.model.contains_key(affected) { "overwrite" } else { "insert" },
-                _ => "delete",
-            };
-            let fail = |ctx: &mut Ctx, msg: String, at: usize| -> (Stop, History) {
-                let f = finding(&["C08"], "relocation", at, format!("{msg} [table {n}, affected key at chain position '{pos}', state depth {}]", st.depth));
-                // witness: rebuild is not possible from ops alone (start image); record the single transition
-                let h = History { kt: "bytes".into(), cfg, keys: keys.clone(), ops: vec![op.clone()], origin: format!("c08 transition from a state at depth {} (start kind {kind}, boundary {boundary}); state image digest {:016x}", st.depth, st.img.digest()) };
-                (ctx.classify(f), h)
-            };
-            let mut s = Session::<DbBytes> { dir: dir.clone(), name: "m".into(), db: None, map: None, extra: vec![], model: st.model.clone(), n_buckets: 0, budget: crate::session::STEP_BUDGET_BASE, updates_since_sync: 0, last_decoded: None, peak_live: 1000 };
-            if let Err(e) = s.open(&cfg) {
-                let (stop, h) = fail(&mut ctx, format!("state does not reopen: {e}"), 0);
-                ctx.record_stop(stop, Some(&h));
-                break 'bfs;
-            }
-            ctx.transitions_inc();
-            let r = s.apply(0, op, &keys, &mon, &mut ctx, 1).and_then(|_| {
-                // every key (alphabet + fillers) must read as the model says
-                s.full_compare(0, &all_keys, &["C08"], &format!("after {}", op.text()), &mut ctx)
-            });
-            s.close();
-            // which records moved
-            let notes = abyssiniandb::verif_hooks::take_notes();
-            let mut moved = String::new();
-            for (k, c) in notes.iter() {
-                *ctx.notes_seen.entry(k.to_string()).or_insert(0) += c;
-                moved.push_str(k);
-                moved.push('+');
-            }
-            if moved.is_empty() {
-                moved.push_str("none");
-            }
-            ctx.count(&format!("cover.{pos}.{opname}"), 1);
-            ctx.count(&format!("moved.{pos}.{opname}.{}", moved.trim_end_matches('+')), 1);
-            if let Err(f) = r {
-                let (stop, h) = fail(&mut ctx, f.msg.clone(), ti);
-                ctx.record_stop(stop, Some(&h));
-                break 'bfs;
-            }
-            let post = match Image::read(&dir, "m") {
-                Ok(i) => i,
-                Err(e) => {
-                    ctx.inconclusive.push(format!("cannot read image: {e}"));
+        for op in transitions.iter() {
+            match transition(&env, &st, &pre_dec, op, &mut ctx) {
+                Err(()) => {
+                    stopped = true;
                     break 'bfs;
                 }
-            };
-            let dec = decoder::decode(&post, Some(DbBytes::SIG));
-            ctx.count("images_decoded", 1);
-            let prob = dec.problems.first().map(|p| format!("{:?}: {}", p.group, p.what)).or_else(|| decoder::contents_mismatch(&post, &dec, &s.model));
-            if let Some(p) = prob {
-                let (stop, h) = fail(&mut ctx, format!("after {}: files no longer decode to the expected contents: {p}", op.text()), ti);
-                ctx.record_stop(stop, Some(&h));
-                break 'bfs;
-            }
-            // boundary crossings by width
-            for e in dec.entries.iter() {
-                if e.val_off >= 16384 {
-                    ctx.count("entries_with_wide_value_offset", 1);
+                Ok((post, model, _dec)) => {
+                    let dg = post.digest();
+                    if seen.insert(dg) {
+                        if seen.len() <= cap {
+                            queue.push_back(State { img: post, model, depth: st.depth + 1 });
+                        } else {
+                            dropped = true;
+                        }
+                    } else {
+                        ctx.count("dedup_hits", 1);
+                    }
                 }
-                if e.next >= 16384 {
-                    ctx.count("entries_with_wide_next_offset", 1);
-                }
-            }
-            let dg = post.digest();
-            if seen.insert(dg) {
-                if seen.len() <= cap {
-                    queue.push_back(State { img: post, model: s.model.clone(), depth: st.depth + 1 });
-                } else {
-                    closed = false;
-                }
-            } else {
-                ctx.count("dedup_hits", 1);
             }
         }
         if states >= cap {
-            closed = queue.is_empty();
             break;
         }
     }
+    ctx.count(if !stopped && !dropped && queue.is_empty() { "closure_reached" } else { "state_cap_reached" }, 1);
+    // random walks from the start image reach deeper than the breadth-first frontier
+    let walks = a.get_u64("walks", 60);
+    let walk_len = a.get_u64("walk_len", 14);
+    let mut rng = Rng::new(a.shard_seed() ^ 0xC08);
+    'walks: for _ in 0..walks {
+        if stopped {
+            break;
+        }
+        let mut cur = State { img: start.img.clone(), model: start.model.clone(), depth: 0 };
+        for _ in 0..walk_len {
+            // inserts are preferred until all keys are present, then overwrites/deletes
+            let missing: Vec<&Op> = transitions.iter().filter(|o| matches!(o, Op::Put(k, _) if !cur.model.contains_key(&keys[*k]))).collect();
+            let op = if !missing.is_empty() && rng.chance(2, 3) { (*rng.pick(&missing)).clone() } else { rng.pick(&transitions).clone() };
+            let pre_dec = decoder::decode(&cur.img, Some(DbBytes::SIG));
+            match transition(&env, &cur, &pre_dec, &op, &mut ctx) {
+                Err(()) => {
+                    break 'walks;
+                }
+                Ok((post, model, _)) => {
+                    ctx.count("walk_steps", 1);
+                    ctx.max("max_depth", cur.depth as u64 + 1);
+                    seen.insert(post.digest());
+                    cur = State { img: post, model, depth: cur.depth + 1 };
+                }
+            }
+        }
+        ctx.count("walks", 1);
+    }
     let _ = std::fs::remove_dir_all(&dir);
     ctx.evaluations = ctx.counters.get("transitions").copied().unwrap_or(0);
-    ctx.count(if closed && queue.is_empty() { "closure_reached" } else { "state_cap_reached" }, 1);
     for d in seen.iter() {
         ctx.digests.insert(*d);
         ctx.nontrivial.insert(*d);
     }
     ctx
+}
+
+struct Env {
+    n: u64,
+    val_boundary: u64,
+    key_boundary: u64,
+    dir: PathBuf,
+    cfg: Cfg,
+    keys: Vec<Vec<u8>>,
+    all_keys: Vec<Vec<u8>>,
+}
+
+/// restore the state image, reopen, apply one call, compare every key, close, decode.
+/// Err(()) = a stop was recorded in ctx
+fn transition(env: &Env, st: &State, pre_dec: &Decoded, op: &Op, ctx: &mut Ctx) -> Result<(Image, Model, Decoded), ()> {
+    let (n, dir, keys) = (env.n, &env.dir, &env.keys);
+    let mon = Mon::default();
+    let _ = std::fs::remove_dir_all(dir);
+    if let Err(e) = st.img.write(dir, "m") {
+        ctx.inconclusive.push(format!("cannot restore image: {e}"));
+        return Err(());
+    }
+    let affected = match op {
+        Op::Put(k, _) | Op::Del(k) => &keys[*k],
+        _ => unreachable!(),
+    };
+    let pos = chain_position(pre_dec, affected);
+    let opname = match op {
+        Op::Put(_, _) => {
+            if st.model.contains_key(affected) {
+                "overwrite"
+            } else {
+                "insert"
+            }
+        }
+        _ => "delete",
+    };
+    let fail = |ctx: &mut Ctx, msg: String| {
+        let f = finding(&["C08"], "relocation", 0, format!("{msg} [table {n}, affected key at chain position '{pos}', state depth {}]", st.depth));
+        // witness: the start image is not rebuilt from ops alone; record the transition and the state digest
+        let h = History { kt: "bytes".into(), cfg: env.cfg, keys: keys.clone(), ops: vec![op.clone()], origin: format!("c08 transition from a state at depth {} (start: val boundary {}, key boundary {}); state image digest {:016x}", st.depth, env.val_boundary, env.key_boundary, st.img.digest()) };
+        let stop = ctx.classify(f);
+        ctx.record_stop(stop, Some(&h));
+    };
+    let mut s = Session::<DbBytes> { dir: dir.clone(), name: "m".into(), db: None, map: None, extra: vec![], model: st.model.clone(), n_buckets: 0, budget: crate::session::STEP_BUDGET_BASE, updates_since_sync: 0, last_decoded: None, peak_live: 1000 };
+    if let Err(e) = s.open(&env.cfg) {
+        fail(ctx, format!("state does not reopen: {e}"));
+        return Err(());
+    }
+    ctx.transitions_inc();
+    let r = s.apply(0, op, keys, &mon, ctx, 1).and_then(|_| {
+        // every key (alphabet + fillers) must read as the model says
+        s.full_compare(0, &env.all_keys, &["C08"], &format!("after {}", op.text()), ctx)
+    });
+    s.close();
+    // which records moved
+    let notes = abyssiniandb::verif_hooks::take_notes();
+    let mut moved = String::new();
+    for (k, c) in notes.iter() {
+        *ctx.notes_seen.entry(k.to_string()).or_insert(0) += c;
+        moved.push_str(k);
+        moved.push('+');
+    }
+    if moved.is_empty() {
+        moved.push_str("none");
+    }
+    ctx.count(&format!("cover.{pos}.{opname}"), 1);
+    ctx.count(&format!("moved.{pos}.{opname}.{}", moved.trim_end_matches('+')), 1);
+    if let Err(f) = r {
+        fail(ctx, f.msg.clone());
+        return Err(());
+    }
+    let post = match Image::read(dir, "m") {
+        Ok(i) => i,
+        Err(e) => {
+            ctx.inconclusive.push(format!("cannot read image: {e}"));
+            return Err(());
+        }
+    };
+    let dec = decoder::decode(&post, Some(DbBytes::SIG));
+    ctx.count("images_decoded", 1);
+    let prob = dec.problems.first().map(|p| format!("{:?}: {}", p.group, p.what)).or_else(|| decoder::contents_mismatch(&post, &dec, &s.model));
+    if let Some(p) = prob {
+        fail(ctx, format!("after {}: files no longer decode to the expected contents: {p}", op.text()));
+        return Err(());
+    }
+    // boundary crossings by width of the stored offset fields
+    for e in dec.entries.iter() {
+        for (nm, off) in [("value", e.val_off), ("next", e.next)] {
+            if off >= 2 * 1024 * 1024 {
+                ctx.count(&format!("entries.{nm}_offset_ge_2MiB"), 1);
+            } else if off >= 131072 {
+                ctx.count(&format!("entries.{nm}_offset_ge_128KiB"), 1);
+            } else if off >= 16384 {
+                ctx.count(&format!("entries.{nm}_offset_ge_16KiB"), 1);
+            }
+        }
+    }
+    Ok((post, s.model.clone(), dec))
 }
 
 trait TransInc {
